@@ -17,7 +17,7 @@ ASSUMPTIONS = ["trace oracles in pbt/simtrace.py (soundness rules DESIGN.md par.
 
 
 def strategy(tier):
-    return simprop.strategy_for([(3, "mutex"), (1, "mixed")])
+    return simprop.strategy_for([(3, "mutex"), (1, "mixed")], tier)
 
 
 def serialize(case):
